@@ -76,6 +76,9 @@ struct ZchDynamicState {
     /// Tracks the prior output character count
     /// because it may need to be erased (see `zchd_prioritized_chords).
     zchd_prior_activation_output_count: i16,
+    /// Value of `zchd_prior_activation_output_count` when the first key of the current hold was
+    /// pressed, i.e. the output of the followup chain that is on screen from earlier holds.
+    zchd_hold_start_output_count: i16,
     /// Tracks the number of characters typed to complete an activation, which will be erased if an
     /// activation completes succesfully.
     zchd_characters_to_delete_on_next_activation: i16,
@@ -313,6 +316,9 @@ impl ZchState {
             .zchd_activate_chord_deadline(self.zch_cfg.zch_cfg_ticks_chord_deadline);
         self.zchd.zchd_state_change(&self.zch_cfg);
         self.zchd.zchd_press_key(osc);
+        if self.zchd.zchd_input_keys.zchik_len() == 1 {
+            self.zchd.zchd_hold_start_output_count = self.zchd.zchd_prior_activation_output_count;
+        }
 
         // There might be an activation.
         // - delete typed keys
@@ -404,13 +410,21 @@ impl ZchState {
                     self.zchd.zchd_characters_to_delete_on_next_activation = 0;
                     self.zchd.zchd_prior_activation_output_count =
                         ZchOutput::display_len(&a.zch_output);
+                    self.zchd.zchd_hold_start_output_count = 0;
                 } else {
                     // Followup chords may consist of an empty output; eventually in the followup
                     // chain has an activation output that is not empty. For empty outputs, do not
                     // do any backspacing.
+                    // Everything typed during this hold stays on screen, in addition to the
+                    // output of the followup chain from earlier holds if this is a followup.
                     self.zchd.zchd_characters_to_delete_on_next_activation += 1;
-                    self.zchd.zchd_prior_activation_output_count +=
-                        self.zchd.zchd_input_keys.zchik_keys().len() as i16;
+                    self.zchd.zchd_prior_activation_output_count =
+                        self.zchd.zchd_characters_to_delete_on_next_activation
+                            + if is_prioritized_activation {
+                                self.zchd.zchd_hold_start_output_count
+                            } else {
+                                0
+                            };
                     kb.press_key(osc)?;
                 }
 
